@@ -188,6 +188,38 @@ func c09GenRecipe(r *RNG, maxSteps int) *c09Recipe {
 	return rc
 }
 
+// c09DirectedRecipes: in every run, gates with BOTH inputs on one wire w where
+// w is the output of a gate that ConstPropagate short-circuits (XOR/OR with
+// zero, AND with one, either operand order, and cc.ID), followed by a
+// dependent gate; outputs behind ID gates.  Gate.ShortCircuit must move both
+// inputs of the consumer (it is listed twice in w's output gates).
+func c09DirectedRecipes() []*c09Recipe {
+	type byp struct {
+		kind, op, a, b int
+	}
+	const in0, in1, zero, one = 0, 1, 2, 3
+	bypasses := []byp{
+		{c09Raw, int(circuit.XOR), in0, zero}, {c09Raw, int(circuit.XOR), zero, in0},
+		{c09Raw, int(circuit.AND), in0, one}, {c09Raw, int(circuit.AND), one, in0},
+		{c09Raw, int(circuit.OR), in0, zero}, {c09Raw, int(circuit.OR), zero, in0},
+		{c09ID, 0, in0, 0},
+	}
+	var res []*c09Recipe
+	for _, bp := range bypasses {
+		for _, op := range []circuit.Operation{circuit.XOR, circuit.XNOR, circuit.AND, circuit.OR} {
+			rc := &c09Recipe{NI: 2}
+			rc.Steps = append(rc.Steps, c09Step{Kind: c09Zero}, c09Step{Kind: c09One})
+			rc.Steps = append(rc.Steps, c09Step{Kind: bp.kind, Op: bp.op, A: bp.a, B: bp.b}) // w = 4
+			rc.Steps = append(rc.Steps, c09Step{Kind: c09Raw, Op: int(op), A: 4, B: 4})          // c = op(w, w) = 5
+			rc.Steps = append(rc.Steps, c09Step{Kind: c09Raw, Op: int(circuit.XOR), A: 5, B: in1}) // d = 6
+			rc.Steps = append(rc.Steps, c09Step{Kind: c09RawI, Op: int(circuit.INV), A: 5})       // e = 7
+			rc.Outs = []c09Out{{Idx: 6}, {Idx: 7}, {Idx: 5}}
+			res = append(res, rc)
+		}
+	}
+	return res
+}
+
 // c09EvalRecipe is the harness's own meaning of a recipe.
 func c09EvalRecipe(rc *c09Recipe, x []bool) []bool {
 	v := append([]bool(nil), x...)
@@ -551,6 +583,8 @@ func c09CheckWfg(cc *circuits.Compiler) string {
 func c09Graphs(c *Ctx) error {
 	n := c.N(200, 10000)
 	targets := []utils.Target{utils.TargetYao, utils.TargetGMW}
+	reprSeen := map[string]int{}
+	directed := c09DirectedRecipes()
 	for i := 0; i < n; i++ {
 		r := c.rng.Fork()
 		maxSteps := 30
@@ -561,6 +595,10 @@ func c09Graphs(c *Ctx) error {
 			maxSteps = 8 // small cases for the in-kernel sub-sample
 		}
 		rc := c09GenRecipe(r, maxSteps)
+		if i < len(directed) {
+			rc = directed[i]
+			c.Hist("graph:directed-both-inputs-on-bypassed-wire")
+		}
 		c.Hist(fmt.Sprintf("graph:inputs:%d", rc.NI))
 		c.Hist(fmt.Sprintf("graph:outputs:%d", len(rc.Outs)))
 		// reference truth table
@@ -576,6 +614,7 @@ func c09Graphs(c *Ctx) error {
 			want[v] = bitsString(c09EvalRecipe(rc, x))
 		}
 		first := true
+		var deferred []func()
 		for _, prune := range []bool{false, true} {
 			for _, tgt := range targets {
 				params := utils.NewParams()
@@ -604,10 +643,23 @@ func c09Graphs(c *Ctx) error {
 						c.Hist("graph:op:" + g.Op.String())
 					}
 					if s := c09CheckWfg(cc); s != "" {
+						// The implementation's graph representation is not what the model's
+						// wfg/wfb/wfx describe (the recipes themselves are well-formed by
+						// construction): an oracle failure of its own; the semantic oracle
+						// below still runs on this graph.
 						c.Hist("graph:wfg-violated:" + s)
-						return fmt.Errorf("graph %d: generator produced a graph outside wfg: %s", i, s)
+						rkey := "c09:graph-representation:" + strings.ReplaceAll(s, " ", "-")
+						if reprSeen[rkey] < 3 {
+							// recorded after the semantic oracle of this graph (see below)
+							rs, rp := s, c09GraphReplay{Seed: c.Seed, Case: i, Prune: prune, Target: tgt.String(), Recipe: rc}
+							deferred = append(deferred, func() {
+								c.Fail(rkey, "the gate graph built through circuits.Compiler does not have the representation the model assumes: "+rs, rp)
+							})
+						}
+						reprSeen[rkey]++
+					} else {
+						c.Hist("graph:wfg-holds")
 					}
-					c.Hist("graph:wfg-holds")
 					if !b.zeroMade || !b.oneMade {
 						c.Hist("graph:constants-created-lazily")
 					}
@@ -739,6 +791,9 @@ func c09Graphs(c *Ctx) error {
 				}
 			}
 		}
+		for _, f := range deferred {
+			f()
+		}
 	}
 	return nil
 }
@@ -785,6 +840,13 @@ func c09Programs(r *RNG, count int) []c09Prog {
 	add("neg-not", "package main\nfunc main(a, b int6) int6 {\n    return -a ^ b\n}\n")
 	add("bool-logic", "package main\nfunc main(a, b uint5) bool {\n    return a > 3 && b < 9 || a == b\n}\n")
 	add("mul-i64", "package main\nfunc main(a, b int64) int64 {\n    return a * b\n}\n")
+	// a value whose gates constant propagation short-circuits, used as BOTH operands of one gate
+	add("same-operand-and-mul", "package main\nfunc main(a, b uint6) uint6 {\n    x := a & 0x0f\n    return x * x + b\n}\n")
+	add("same-operand-xor-add", "package main\nfunc main(a, b uint6) uint6 {\n    x := a ^ 0x15\n    y := x + x\n    return y ^ b\n}\n")
+	add("same-operand-or-and", "package main\nfunc main(a, b uint6) uint6 {\n    x := a | 0x21\n    y := x & x\n    z := b & 0x3c\n    return y + (z | z)\n}\n")
+	add("same-operand-add-xor", "package main\nfunc main(a, b uint6) uint6 {\n    x := a + 16\n    y := x ^ x\n    z := b ^ 0x2a\n    return y | (z * z)\n}\n")
+	add("same-operand-compare", "package main\nfunc main(a, b uint6) uint6 {\n    x := a & 0x33\n    y := b | 0x0c\n    if x < x || y > y {\n        return 1\n    }\n    if x <= x && y == y {\n        return x - x + y\n    }\n    return 2\n}\n")
+	add("same-operand-signed-mul", "package main\nfunc main(a, b int6) int6 {\n    x := a & 0x1b\n    y := b ^ 0x24\n    return x * x - y * y\n}\n")
 	// testsuite/lang files
 	files, _ := filepath.Glob(filepath.Join(repoRoot(), "testsuite", "lang", "*.mpcl"))
 	sort.Strings(files)
@@ -915,6 +977,7 @@ func c09Progs(c *Ctx) error {
 		if berr != "" {
 			// must fail the same way everywhere
 			c.Hist("prog:does-not-compile")
+			c.Note("program %s does not compile under the default configuration: %s", p.Name, berr)
 			for _, k := range cfgs[1:] {
 				_, e := c09CompileProg(p, k)
 				nconf++
@@ -994,6 +1057,11 @@ func c09Progs(c *Ctx) error {
 			key := fmt.Sprintf("prune=%v:thr=%d:%s", k.prune, k.thr, k.tgt)
 			if e != "" {
 				rp.Error = e
+				if strings.HasPrefix(e, "panic:") {
+					c.Fail("c09:prog:compiler-panics:"+key,
+						"the compiler panics on a program under this configuration and not under the default one", rp)
+					continue
+				}
 				c.Fail("c09:prog:compiles-under-some-configurations-only:"+key,
 					"program compiles under the default configuration and fails under another", rp)
 				continue
